@@ -230,7 +230,18 @@ pub fn run(ctx: &Ctx, out: &mut CaseOut) {
         return;
     }
     // generated programs across all fragments
-    let mode = (ctx.k - nc) % 10;
+    let mode = (ctx.k - nc) % 11;
+    if mode == 10 {
+        // known-answer programs over every built-in type constructor; here only the two solvers are compared
+        let z = crate::zoo::gen_zoo(&mut r);
+        let goals: Vec<String> = z.goals.iter().map(|g| g.0.clone()).collect();
+        out.count("generated-fragment:constructor-zoo");
+        run_pair(out, &z.text, &goals, false, "generated:zoo");
+        if out.sample.is_none() {
+            out.sample = Some(J::obj().set("origin", "generated:zoo").set("program", z.text.as_str()).set("goal", goals[0].as_str()));
+        }
+        return;
+    }
     let (prog, goals): (MProgram, Vec<String>) = match mode {
         0..=3 => {
             let cfg = GenCfg { increasing_pct: if mode == 1 { 40 } else { 0 }, coinductive_pct: if mode >= 2 { 40 } else { 0 }, ..Default::default() };
